@@ -13,6 +13,7 @@ from ..install import ctx as _ctx
 from ..bootstrap import smod
 from .c13 import burg_ref
 
+REPO_TESTS_UNDER_CONTRACTS = True
 RULE = ('cases = (data kind, real/complex, N in 8..128, m in 2..min(N/2,16), NFFT >= 2m even/odd, '
         'sampling, container); non-trivial when m >= 3; distinct = distinct descriptor')
 ASSUMPTIONS = ['R = Hermitian Toeplitz of the lags implied by the returned reflection coefficients and mean|x|^2 '
